@@ -307,3 +307,109 @@ pub fn run_once(program: &Program, ev: &J, meta: &J, schedule: &[usize], mode: F
 pub fn default_events() -> Vec<J> {
     vec![json!({"ev": {"t": "obj", "m": {}}, "meta": {"t": "obj", "m": {}}})]
 }
+
+/// C34: for every unused-result warning that covers a whole root statement, delete the statement,
+/// recompile and run both programs on every event.  Emits one `unused` (or `unjudged`) event per
+/// such warning, in the vocabulary of spec/TraceUnused.tla.
+pub fn unused_case(case: &J, events: &[J], tz: &TimeZone) -> Vec<J> {
+    let mut out = vec![];
+    let stmts: Vec<J> = case["ast"].as_array().cloned().unwrap_or_default();
+    let (src, with_spans) = render::render_program(&stmts);
+    let c = match compile_case(case) {
+        Ok(c) => c,
+        Err(ev) => return vec![ev],
+    };
+    let annotated = c.prog_event["ast"].as_array().cloned().unwrap_or_default();
+    let mut nwarn = 0usize;
+    for w in c.warnings.iter() {
+        if w.message.starts_with("unused variable") || !w.message.starts_with("unused") {
+            continue;
+        }
+        nwarn += 1;
+        let Some(l) = w.labels.first() else { continue };
+        let (ws, we) = (l.span.start(), l.span.end());
+        // the flagged statement: a root statement, or a statement of a block that has others
+        let mut path: Option<Vec<usize>> = None;
+        find_stmt(&with_spans, ws, we, &mut vec![], &mut path);
+        let Some(path) = path else {
+            out.push(json!({"e": "unjudged", "id": case["id"], "src": src, "msg": w.message, "why": "warning does not cover a whole statement"}));
+            continue;
+        };
+        let i = path[0];
+        let edited = remove_stmt(&stmts, &path);
+        let mut ecase = case.clone();
+        ecase["ast"] = J::Array(edited);
+        let ec = match compile_case(&ecase) {
+            Ok(ec) => ec,
+            Err(ev) => {
+                out.push(json!({"e": "unjudged", "id": case["id"], "src": src, "msg": w.message, "why": "edited program does not compile", "detail": ev["diags"]}));
+                continue;
+            }
+        };
+        let mut runs = vec![];
+        for e in events {
+            let a = run_once(&c.program, &e["ev"], &e["meta"], &[], FaultMode::None, tz, false);
+            let b = run_once(&ec.program, &e["ev"], &e["meta"], &[], FaultMode::None, tz, false);
+            runs.push(json!({"ev": e["ev"], "meta": e["meta"], "orig": a.end, "edit": b.end}));
+        }
+        let node = node_at(&annotated, &path);
+        let fal = node["st"]["fal"].as_bool().unwrap_or(true);
+        let mut hides = false;
+        walk(node, &mut |n: &J| {
+            let k = n["k"].as_str().unwrap_or("");
+            if k == "asg" || k == "asg2" || (k == "call" && n["cls"] == "del") {
+                hides = true;
+            }
+        });
+        let base = match node["k"].as_str().unwrap_or("") {
+            "op" => format!("op:{}", node["o"].as_str().unwrap_or("")),
+            "call" => format!("call:{}", node["cls"].as_str().unwrap_or("")),
+            k => k.to_owned(),
+        };
+        let desc = if hides { format!("{base}:hides-write") } else { base };
+        let _ = i;
+        out.push(json!({"e": "unused", "id": case["id"], "src": src, "edited": ec.prog_event["src"], "stmt": i, "desc": desc,
+                        "fal": fal, "has_st": node.get("st").is_some(), "msg": w.message, "runs": runs}));
+    }
+    if nwarn == 0 {
+        out.push(json!({"e": "nowarn", "id": case["id"], "src": src}));
+    }
+    out
+}
+
+/// Find a statement (element of the root list or of a block's `s` list with more than one
+/// element) whose span is exactly [ws, we); `path` = indices: root index, then for each nested
+/// block the index inside the enclosing statement list (only blocks that are themselves
+/// statements or reachable through `s` lists are searched).
+fn find_stmt(list: &[J], ws: usize, we: usize, prefix: &mut Vec<usize>, found: &mut Option<Vec<usize>>) {
+    for (i, n) in list.iter().enumerate() {
+        if found.is_some() {
+            return;
+        }
+        prefix.push(i);
+        if n["sp"][0].as_u64() == Some(ws as u64) && n["sp"][1].as_u64() == Some(we as u64) && (prefix.len() == 1 || list.len() > 1) {
+            *found = Some(prefix.clone());
+        } else if n["k"] == "block" {
+            if let Some(inner) = n["s"].as_array() {
+                find_stmt(inner, ws, we, prefix, found);
+            }
+        }
+        prefix.pop();
+    }
+}
+
+fn node_at<'a>(list: &'a [J], path: &[usize]) -> &'a J {
+    let n = &list[path[0]];
+    if path.len() == 1 { n } else { node_at(n["s"].as_array().expect("block"), &path[1..]) }
+}
+
+fn remove_stmt(list: &[J], path: &[usize]) -> Vec<J> {
+    let mut out: Vec<J> = list.to_vec();
+    if path.len() == 1 {
+        out.remove(path[0]);
+    } else {
+        let inner = remove_stmt(out[path[0]]["s"].as_array().expect("block"), &path[1..]);
+        out[path[0]]["s"] = J::Array(inner);
+    }
+    out
+}
